@@ -2,7 +2,7 @@
 import re
 
 from .. import lib
-from ..lib import (call_sites, same_value, describe, is_load_of, ret_cases, on_cas_success, guard_interval, expr_str, affine)
+from ..lib import (null_tests, call_sites, same_value, describe, is_load_of, ret_cases, on_cas_success, guard_interval, expr_str, affine)
 from ..ir import const_int, iter_refs
 
 META = {
@@ -252,6 +252,11 @@ def bounded_by_var(f, idx, at, length):
     return False
 
 
+# environment variables documented for each default (README / docs: MYTH_WORKER_NUM is the superseded spelling)
+ENVNAMES = {'myth_globalattr_default_stacksize': ['MYTH_DEF_STKSIZE'], 'myth_globalattr_default_guardsize': ['MYTH_DEF_GUARDSIZE'],
+            'myth_globalattr_default_num_workers': ['MYTH_NUM_WORKERS', 'MYTH_WORKER_NUM']}
+
+
 def rule4_signed(ctx, fl):
     ctx.doc('C15.4', 'myth_globalattr_default_stacksize / guardsize / num_workers: the decision "value <= 0 -> use the default" '
             'is a signed comparison (sle 0 / slt 1) on the sign-extended atoi result, and the parsed value is returned only on '
@@ -278,13 +283,35 @@ def rule4_signed(ctx, fl):
         bad = [z for z in f.order if z.op == 'zext' and (f.sources(z.ops[0]) & atv) and z.ty == 'i64']
         ctx.ob('C15.4', name + ': atoi result widened with sign', not bad, 'int -> long/size_t conversion keeps the sign until the test',
                loc=(bad[0].loc if bad else f.loc))
+        # which variable is read, and that what it says is parsed: getenv(NAME) -> tested non-NULL -> atoi(that string)
+        want = ENVNAMES[name]
+        ge = call_sites(f, 'getenv')
+        got = []
+        for g_ in ge:
+            a0 = g_.args[0]
+            gn = a0['ops'][0].get('g') if isinstance(a0, dict) and a0.get('ops') and isinstance(a0['ops'][0], dict) else None
+            txt = ((v.globals.get(gn) or {}).get('init') or {}).get('str', '').rstrip('\x00') if gn else ''
+            got.append(txt)
+            mine = [a for a in at if same_value(f, a.args[0], g_.id)]
+            nts = null_tests(f, g_.id)
+            ctx.ob('C15.4', '%s: %s is parsed where it is set' % (name, txt or '?'), bool(mine) and bool(nts) and all(
+                any(f.edge_dominates(br.block.id, nn, a) for br, nn, nl in nts) for a in mine),
+                'atoi runs on the string getenv returned, and only where that string is not NULL (atoi(NULL) crashes when the variable '
+                'is unset)', loc=g_.loc)
+            if mine and nts:
+                # with the variable set, its value is what is tested: every path from the non-NULL edge to a return passes the atoi
+                ok_used = all(f.always_passes(lib.first_inst(f, nn), mine) or lib.first_inst(f, nn) in mine for br, nn, nl in nts)
+                ctx.ob('C15.4', '%s: a set %s is not ignored' % (name, txt or '?'), ok_used,
+                       'the value of the variable decides the setting whenever the variable is set', loc=g_.loc)
+        ctx.ob('C15.4', name + ': reads the documented variable(s)', sorted(got) == sorted(want), 'getenv names', loc=f.loc,
+               detail='reads %s, documented %s' % (got, want))
         for val, anchor in ret_cases(f, maxdepth=1):
             if isinstance(val, str) and (f.sources(val) & atv) and signed:
                 ic = signed[0]
                 pos_pol = ic.pred in ('sgt', 'sge')
                 ctx.ob('C15.4', name + ': parsed value returned only if positive', f.on_edge(ic.id, pos_pol, anchor),
                        'the environment value is used only on the > 0 edge', loc=anchor.loc)
-    ctx.floor('C15.4', 9)
+    ctx.floor('C15.4', 20)
 
 
 def rule5_workers(ctx, fl):
@@ -470,6 +497,10 @@ INITC = 'src/myth_init.c'
 BIND = 'src/myth_bind_worker.c'
 INITH = 'src/myth_init_func.h'
 MUTANTS = [
+    {'name': 'MYTH_NUM_WORKERS read but not parsed (sweep M0324)', 'expect': 'C15.4',
+     'edits': [('src/myth_init_func.h', "  if (env) {\n    nw = atoi(env);\n  } else {\n    env = getenv(ENV_MYTH_WORKER_NUM);", "  if (env) {\n    ;\n  } else {\n    env = getenv(ENV_MYTH_WORKER_NUM);")]},
+    {'name': 'stack size default parses an unset variable (sweep M0330)', 'expect': 'C15.4',
+     'edits': [('src/myth_init_func.h', "  char * env = getenv(ENV_MYTH_DEF_STKSIZE);\n  if (env) {", "  char * env = getenv(ENV_MYTH_DEF_STKSIZE);\n  if (!(env)) {")]},
     {'name': 'explicit attributes adopted only while g_attr is uninitialised (seed2 C15/m2)', 'expect': 'C15.5',
      'edits': [(INITC, "  if (attr) {\n    g_attr = *attr;\n  } else {\n    if (!g_attr.initialized) myth_globalattr_init_body(&g_attr);\n  }",
                 "  if (!g_attr.initialized) {\n    if (attr) {\n      g_attr = *attr;\n    } else {\n      myth_globalattr_init_body(&g_attr);\n    }\n  }")]},
